@@ -95,10 +95,16 @@ def observe(case):
     from vyxal.helpers import deep_copy
     from vyxal.LazyList import LazyList
     alias_plain = None
-    if isinstance(args[0], (list, LazyList)) and seed % 2 == 0:
-        plain = [1, 2, 3, 4][: 2 + seed % 3]
-        args[0] = LazyList(iter(list(plain))) if seed % 4 == 0 else list(plain)
-        sentinels = sentinels + ([deep_copy(args[0])] if seed % 3 else [args[0]])
+    variant = seed % 4          # the driver numbers the tuples of a key 0, 1, 2, ... in the low bits of the seed
+    if variant:
+        # with a list as first argument the common case is small integers for the others (index, count, value)
+        for j in range(1, len(args)):
+            if rng.random() < 0.85:
+                args[j] = rng.choice([0, 1, 1, 2]) if j == 1 else rng.choice([0, 1, 2, 9])
+        # variant 1: lazy argument + a dup-style view below; 2: eager argument + view; 3: lazy argument, same object below
+        plain = [1, 2, 3, 4][: 2 + (seed // 4) % 3]
+        args[0] = list(plain) if variant == 2 else LazyList(iter(list(plain)))
+        sentinels = sentinels + ([args[0]] if variant == 3 else [deep_copy(args[0])])
         alias_plain = plain
     stack = sentinels + args
     text = (m or "") + "".join(opkeys)
@@ -147,7 +153,7 @@ def main(tier):
     cs = []
     for k in keys:
         for i in range(per):
-            cs.append(("elem", k, "", [k], rng.randint(0, 10 ** 9)))
+            cs.append(("elem", k, "", [k], rng.randint(0, 10 ** 8) * 4 + (i + 1) % 4))
     mper = 1 if tier == "quick" else 6
     for m in MONADIC + DYADIC + TRIADIC:
         n = 1 if m in MONADIC else 2 if m in DYADIC else 3
@@ -156,7 +162,7 @@ def main(tier):
                 ops = [k] + [rng.choice(["+", "›", "d", "N", ":", "W", "_"]) for _ in range(n - 1)]
                 if i % 2 and n > 1:
                     ops = ops[1:] + ops[:1]
-                cs.append(("mod", k, m, ops, rng.randint(0, 10 ** 9)))
+                cs.append(("mod", k, m, ops, rng.randint(0, 10 ** 8) * 4 + (i % 4 if mper > 1 else rng.randint(0, 3))))
     with common.Scratch(PID) as s:
         mc = tlc.model_check(s, "MC_Machine", cfg="MC_Machine_quick", workers=16, xss="512m", xmx="16g", timeout=3000)
         if not mc["ok"]:
